@@ -247,6 +247,14 @@ def mutate_name(rng, base: str, sb_expr: str, through: list) -> tuple:
     if k == 10:
         i = r.below(len(base) + 1)
         return base[:i] + r.choice(["\n", "\x7f", "\x01", "\t", "\r", "\x1b"]) + base[i:], "control"
+    if k == 11 and r.chance(50):
+        # traversal / absolute names spelled with compatibility characters (a loader must not normalise them into
+        # '..' or '/'): added after seeded change C22-2 (NFKC normalisation after the '..' test) was missed
+        dot = r.choice(["\uff0e", "\u2024", "\ufe52"])
+        sl = r.choice(["/", "\uff0f", "\u2215"])
+        if r.chance(50):
+            return dot + dot + sl + r.choice(["outside/secret.txt", "a.txt", "outside/" + base]), "compat-dotdot"
+        return "\uff0f" + sb_expr.lstrip("/") + "/" + r.choice(["outside/secret.txt", "a.txt"]), "compat-absolute"
     if k == 11:
         i = r.below(len(base) + 1)
         return base[:i] + r.choice(["é", "\U0001d518", "‮", "／", "∕", "﻿", "．．"]) + base[i:], "unicode"
